@@ -7,6 +7,7 @@ func buildProperties() []Property {
 			Decides:    "a necessary condition of 'leaves exactly the unconsumed remainder': in every entry of the construct table and in the non-terminal/terminal helpers the remainder is reachable from the input list over the hidden-argument pairs handed to sub-translations and constructed goals, every fresh difference-list variable is fed by that threading, and the rule translator connects head and body through its fresh variables. This is the thinnest claim of the set.",
 			NotDecided: "language preservation, argument bindings, cut and negation semantics inside bodies.",
 			Rules: []RuleDef{
+				{"R-RESOLVE-ALL", 3, ruleResolveAll("C17")},
 				{"R-DCG-THREAD", 14, ruleDCGThread},
 				{"R-DCG-LOOKAHEAD", 1, ruleDCGLookahead},
 			},
@@ -16,6 +17,7 @@ func buildProperties() []Property {
 			Decides:    "agreement of the writer's and the reader's tables and exactness of the number paths: every escape the writer can emit is accepted by the lexer class, matched by the reader's pattern and mapped back to the same character; quote, backslash and control characters always trigger escaping; floats are written with the shortest round-tripping representation and read by one correctly rounding conversion; write_term/3 and read_term/3 use the VM's one operator table.",
 			NotDecided: "bracketing/spacing correctness for operator contexts - the heart of the round trip - which depends on pairs (context operator, operand) over all tables.",
 			Rules: []RuleDef{
+				{"R-MAP-COW", 4, ruleMapCOW},
 				{"R-ESCAPE-TABLES", 12, ruleEscapeTables},
 				{"R-FLOAT-TEXT", 2, ruleFloatText},
 				{"R-TEXT-RUNE", 8, ruleTextRune},
@@ -27,6 +29,8 @@ func buildProperties() []Property {
 			Decides:    "the clause 'text measured in characters, not bytes': in the atom-processing builtins (resolved from the registration calls) a string obtained from an atom is measured and indexed only through []rune or range offsets; its byte length feeds only capacities and zero tests; it is sliced only at offsets produced by ranging over the same string.",
 			NotDecided: "completeness and exactly-once enumeration in every mode - behavioural.",
 			Rules: []RuleDef{
+				{"R-TRIM-CUTSET", 1, ruleTrimCutset},
+				{"R-RESOLVE-ALL", 130, ruleResolveAll("C16")},
 				{"R-TEXT-RUNE", 8, ruleTextRune},
 				{"R-INT-WRAP", 3, ruleIntWrap},
 			},
@@ -39,6 +43,7 @@ func buildProperties() []Property {
 				{"R-STREAM-OWNER", 8, ruleStreamOwner},
 				{"R-POSITION-PAIRING", 6, rulePositionPairing},
 				{"R-PEEK-UNREAD", 5, rulePeekUnread},
+				{"R-STREAM-TYPE-GUARD", 4, ruleStreamTypeGuard},
 				{"R-EOF-ACTION-PAST", 1, ruleEOFActionPast},
 				{"R-LOOKAHEAD", 20, ruleLookahead},
 			},
@@ -48,8 +53,10 @@ func buildProperties() []Property {
 			Decides:    "for every ordered pair of concrete term representations the Compare method, partially evaluated under 'the resolved argument has that dynamic type', returns exactly the constant the documented class order dictates, antisymmetrically (cross-class totality and antisymmetry; transitivity follows from a consistent rank); same-class pairs reach a value comparison; keysort/2 uses a stable sort; sort/2 and setof/3 share one set constructor that orders and deduplicates with Term.Compare.",
 			NotDecided: "ordering within a class (atoms by text, compounds by arity/name/args, numeric values), and that different encodings of the same list compare equal.",
 			Rules: []RuleDef{
+				{"R-RESOLVE-ALL", 9, ruleResolveAll("C08")},
 				{"R-COMPARE-MATRIX", 100, ruleCompareMatrix},
 				{"R-STABLE-KEYSORT", 1, ruleStableKeysort},
+				{"R-COMPARE-RANGE", 20, ruleCompareRange},
 				{"R-SET-ORDER", 4, ruleSetOrder},
 				{"R-COMPOUND-ORDER", 5, ruleCompoundOrder},
 				{"R-INT-WRAP", 3, ruleIntWrap},
@@ -108,6 +115,7 @@ func buildProperties() []Property {
 			Decides:    "the term kept for clause/2 and retract/1 is a closed copy (bindings applied) on every compile path; the operand types the compiler emits are the types the interpreter asserts; every emitted structure opcode is closed by exactly one pop; head and body argument compilers treat each term representation with opcodes of the same kind; unchecked assertions on struct fields hold for every value stored there; every opcode has a handler; copies keep variable sharing.",
 			NotDecided: "that the bytecode denotes the source term (argument order, variable numbering) for every clause - a translation-validation question.",
 			Rules: []RuleDef{
+				{"R-RESOLVE-ALL", 25, ruleResolveAll("C10")},
 				{"R-RAW-CLOSED", 2, ruleRawClosed},
 				{"R-CLAUSE-BUILD", 2, ruleClauseBuild},
 				{"R-OPERAND-AGREE", 14, ruleOperandAgree},
@@ -123,6 +131,7 @@ func buildProperties() []Property {
 			Decides:    "op/3 validates everything before it mutates anything (no error exit is reachable after a mutation); the operator table is written only from code reachable from op/3 and the parser/VM initialisers; write_term/3 and every term-reading parser use the VM's one table.",
 			NotDecided: "that current_op/3 enumerates exactly the ISO table after every history (class exclusion, priority-0 removal are value-level).",
 			Rules: []RuleDef{
+				{"R-RESOLVE-ALL", 8, ruleResolveAll("C18")},
 				{"R-OP-ATOMIC", 2, ruleOpAtomic},
 				{"R-OPS-WRITERS", 2, ruleOpsWriters},
 				{"R-OPS-SOURCE", 4, ruleOpsSource},
@@ -135,6 +144,7 @@ func buildProperties() []Property {
 			Rules: []RuleDef{
 				{"R-COMMIT-AFTER-SUCCESS", 3, ruleCommitAfterSuccess},
 				{"R-STAGING-LOCAL", 1, ruleStagingLocal},
+				{"R-MARK-ROLLBACK", 1, ruleMarkRollback},
 				{"R-SLICE-OWNER", 4, ruleSliceOwner},
 			},
 		},
@@ -157,6 +167,7 @@ func buildProperties() []Property {
 			Decides:    "cut-barrier discipline: the barrier field is written only at construction and cleared only by the trampoline; a cut is tagged with the activation's own barrier; each clause alternative gets the promise holding this call's alternatives as barrier; no *Promise can travel into a callee (procedure interface, Cont, VM fields), so every goal entered through call/N, \\+, findall, catch gets a fresh barrier.",
 			NotDecided: "that popUntil prunes exactly the right frames for every dynamic stack; the derived semantics of ->, once, \\+ in bootstrap.pl.",
 			Rules: []RuleDef{
+				{"R-RESOLVE-ALL", 10, ruleResolveAll("C03")},
 				{"R-CUT-WRITERS", 4, ruleCutWriters},
 				{"R-CUT-PARENT", 1, ruleCutParent},
 				{"R-CUT-LOCAL", 4, ruleCutLocal},
@@ -182,6 +193,7 @@ func buildProperties() []Property {
 			Decides:    "every collected instance is a renamed copy of the template taken under that solution's environment; after the nested search findall/3 and \\+/1 continue with their own outer environment (no goal binding is left behind, with R-ENV-IMMUT); copies keep variable sharing.",
 			NotDecided: "free-variable computation, witness variance, partition into groups, solution order.",
 			Rules: []RuleDef{
+				{"R-RESOLVE-ALL", 18, ruleResolveAll("C11")},
 				{"R-COPY-ON-COLLECT", 1, ruleCopyOnCollect},
 				{"R-OUTER-ENV", 2, ruleOuterEnv},
 				{"R-RESOLVE-FIRST", 6, ruleResolveFirst},
@@ -196,6 +208,7 @@ func buildProperties() []Property {
 			Rules: []RuleDef{
 				{"R-FORCE-CTX", 8, ruleForceCtx},
 				{"R-POLL-IN-LOOP", 3, rulePollInLoop},
+				{"R-MARK-ROLLBACK", 1, ruleMarkRollback},
 			},
 		},
 		{
@@ -203,6 +216,7 @@ func buildProperties() []Property {
 			Decides:    "a failed unification leaves no binding (environments are persistent: every Env store targets a node private to the writer); unify_with_occurs_check applies the check at every depth and before every bind; atomic terms are compared with a total non-panicking equality; every slice/string encoding of a list reports './2 through the Compound interface.",
 			NotDecided: "most-generality, symmetry, idempotence, and that Arg(n) of the four list encodings denotes the same abstract argument (algebraic laws over all term pairs).",
 			Rules: []RuleDef{
+				{"R-RESOLVE-ALL", 24, ruleResolveAll("C02")},
 				{"R-ENV-IMMUT", 9, ruleEnvImmut},
 				{"R-PARAM-THREAD", 5, ruleParamThread(threadRowsFor("unify", "contains"))},
 				{"R-OCCURS-SITE", 2, ruleOccursSite},
@@ -215,6 +229,7 @@ func buildProperties() []Property {
 			Decides:    "integer evaluables never route through float64; full-range + - * neg are paired with an int_overflow branch; / % divisors and shift counts are guarded; float->integer conversions are range-guarded with the actual constants; the 2x2 type dispatch of the six comparison predicates and of the mixed-mode arithmetic computes the operator the ISO name prescribes.",
 			NotDecided: "value correctness of guards that are present but wrong (the sign error in mulF/divF, O2), IEEE results of the float functions, deeper expression trees.",
 			Rules: []RuleDef{
+				{"R-RESOLVE-ALL", 6, ruleResolveAll("C07")},
 				{"R-INT-EXACT", 10, ruleIntExact},
 				{"R-OVERFLOW-GUARD", 5, ruleOverflowGuard},
 				{"R-DIV-GUARD", 3, ruleDivGuard},
@@ -229,6 +244,7 @@ func buildProperties() []Property {
 			Decides:    "panic classes visible in code shape (zero divisor, negative shift, uncomparable interface comparison, missing table row)",
 			NotDecided: "termination on arbitrary text, slice bounds in general, memory exhaustion",
 			Rules: []RuleDef{
+				{"R-ARRAY-INDEX", 20, ruleArrayIndex},
 				{"R-DIV-GUARD", 3, ruleDivGuard},
 				{"R-SHIFT-GUARD", 2, ruleShiftGuard},
 				{"R-IFACE-EQ", 10, ruleIfaceEq},
